@@ -64,7 +64,11 @@ func (g *Gen) zeroInit(st *State, r string, t types.Type) {
 		for i := 0; i < u.NumFields(); i++ {
 			fl := u.Field(i)
 			if _, isStruct := fl.Type().Underlying().(*types.Struct); isStruct {
-				continue // nested struct by value: addressed through fref, left unconstrained
+				if sn, ok := g.sealed(fl.Type()); ok {
+					a := g.arr(st.heap, sn, "Opq")
+					g.assignArr(st.heap, sn, "Opq", fmt.Sprintf("(store %s (fref %s %d) %s)", a, r, g.fieldID(tn, fl.Name()), g.zeroOf(fl.Type())))
+				}
+				continue // nested struct by value: addressed through fref, otherwise left unconstrained
 			}
 			s := sortOf(fl.Type())
 			name := "F!" + tn + "!" + fl.Name()
@@ -227,6 +231,11 @@ func (f *frame) step(in ssa.Instruction, st *State) bool {
 			f.safety("nil", st, fmt.Sprintf("(not (= %s 0))", addr.T), x.Pos(), "nil pointer dereference")
 		}
 		if l.Struct {
+			if sn, ok := g.sealed(l.Ty); ok && sortOf(v.Ty) == "Opq" {
+				g.noteWrite(sn, l.Idx)
+				a := g.arr(st.heap, sn, "Opq")
+				g.assignArr(st.heap, sn, "Opq", fmt.Sprintf("(store %s %s %s)", a, l.Idx, v.T))
+			}
 			// whole-struct store: havoc all fields of the target
 			stt, _ := g.structOf(l.Ty)
 			tn := g.W.typeName(l.Ty)
@@ -502,6 +511,10 @@ func (f *frame) unop(x *ssa.UnOp, st *State) bool {
 			f.safety("nil", st, fmt.Sprintf("(not (= %s 0))", v.T), x.Pos(), "nil pointer dereference")
 		}
 		if l.Struct {
+			if sn, ok := g.sealed(l.Ty); ok {
+				f.regs[x] = Val{T: fmt.Sprintf("(select %s %s)", g.arr(st.heap, sn, "Opq"), l.Idx), Ty: x.Type()}
+				return true
+			}
 			// whole-struct load: opaque value
 			n := g.fresh("structval")
 			g.declare(n, "Opq")
